@@ -253,6 +253,9 @@ class Interp:
         if isinstance(v, FinStr):
             return v.where(lambda s: s != "")
         if isinstance(v, SStr):
+            if v.stripped:
+                ws = z3.Union(*[z3.Re(z3.StringVal(c)) for c in WS_CHARS])
+                return z3.Not(z3.InRe(v.t, z3.Star(ws)))
             return z3.Length(v.t) > 0
         if isinstance(v, GroupVal):
             return v.mv.nonempty[v.name]
@@ -359,6 +362,8 @@ class Interp:
             return False
         if isinstance(a, SStr) or isinstance(b, SStr):
             s, o = (a, b) if isinstance(a, SStr) else (b, a)
+            if s.stripped or (isinstance(o, SStr) and o.stripped):
+                raise Unsupported("== on a stripped symbolic string")
             if isinstance(o, str):
                 if s.lowered:
                     return self._sstr_lower_eq(s, o)
@@ -754,30 +759,28 @@ class Interp:
             return self.str_method(st, name, args, kwargs)
         if isinstance(s, SStr):
             if name == "lower" and not args:
-                return SStr(s.t, True)
+                return SStr(s.t, True, s.stripped)
             if name == "strip" and not args:
-                if s.lowered:
-                    raise Unsupported("strip after lower")
-                ws = z3.Union(*[z3.Re(z3.StringVal(c)) for c in WS_CHARS])
-                pre, r, post = self.fresh_str("strip.pre"), self.fresh_str("strip"), self.fresh_str("strip.post")
-                nws = z3.Complement(ws)
-                allc = z3.Full(z3.ReSort(z3.StringSort()))
-                anychar = z3.AllChar(z3.ReSort(z3.StringSort()))
-                nonws = z3.Intersect(anychar, nws)
-                core = z3.Union(z3.Re(z3.StringVal("")), nonws, z3.Concat(nonws, allc, nonws))
-                self.assume(z3.And(s.t == z3.Concat(pre, r, post), z3.InRe(pre, z3.Star(ws)),
-                                   z3.InRe(post, z3.Star(ws)), z3.InRe(r, core)))
-                return SStr(r, False)
-            if name == "startswith" and len(args) == 1 and isinstance(args[0], str):
-                c = args[0]
-                if not s.lowered:
-                    return z3.PrefixOf(z3.StringVal(c), s.t)
-                if len(c) != 1:
-                    raise Unsupported("lowered startswith with longer prefix")
-                pre = sorted(x for x in case_variants(c) if x.lower() == c)
-                return Or(*[z3.PrefixOf(z3.StringVal(x), s.t) for x in pre])
+                return SStr(s.t, s.lowered, True)
+            if name == "startswith" and len(args) == 1 and isinstance(args[0], str) and args[0]:
+                return z3.InRe(s.t, z3.Concat(*(self._sstr_lead(s) + [self._sstr_chars(s, c) for c in args[0]]
+                                                + [z3.Full(z3.ReSort(z3.StringSort()))])))
             raise Unsupported("SStr.%s" % name)
         raise Unsupported("str method %s on untracked string" % name)
+
+    def _sstr_lead(self, s):
+        if s.stripped:
+            return [z3.Star(z3.Union(*[z3.Re(z3.StringVal(c)) for c in WS_CHARS]))]
+        return []
+
+    def _sstr_chars(self, s, ch):
+        if s.lowered:
+            pre = sorted(x for x in case_variants(ch) if x.lower() == ch)
+            if not pre:
+                return z3.Empty(z3.ReSort(z3.StringSort()))
+        else:
+            pre = [ch]
+        return z3.Union(*[z3.Re(z3.StringVal(x)) for x in pre]) if len(pre) > 1 else z3.Re(z3.StringVal(pre[0]))
 
     def group_text(self, g):
         """the text of a present group as SStr (language = the group's sub-pattern, A-regex)"""
@@ -1054,10 +1057,9 @@ class Interp:
         if isinstance(f, ClassVal):
             return self.instantiate(f, args, kwargs)
         if isinstance(f, ExtType):
-            if f == T_INT:
-                return self.world.builtins["int"].fn(self, list(args), dict(kwargs))
-            if f == T_STR:
-                return self.world.builtins["str"].fn(self, list(args), dict(kwargs))
+            if f.fn is not None:
+                return f.fn(self, list(args), dict(kwargs))
+            raise Unsupported("call of type %s" % f.name)
         if f is None:
             raise PyRaise("TypeError", "'NoneType' object is not callable")
         raise Unsupported("call of %r" % (f,))
